@@ -198,7 +198,8 @@ func (w *fileWriter) Commit(ctx context.Context, count int64) error {
 	var b [8]byte
 	binary.LittleEndian.PutUint64(b[:], uint64(count))
 	if _, err := w.Write(b[:]); err != nil {
-		return nil
+		w.File.Discard(ctx)
+		return err
 	}
 	return closeFile(ctx, w.File)
 }
@@ -224,8 +225,10 @@ func (s *fileStore) Open(ctx context.Context, task TaskName, partition int, offs
 	r := f.Reader(ctx)
 	if n, err := r.Seek(offset, io.SeekStart); err != nil || n != offset {
 		if err == nil {
-			return nil, errors.E(errors.Invalid, fmt.Sprintf("Seeked to %d, got %d", offset, n))
+			err = errors.E(errors.Invalid, fmt.Sprintf("Seeked to %d, got %d", offset, n))
 		}
+		_ = closeFile(ctx, f)
+		return nil, err
 	}
 	return &fileIOCloser{
 		Reader: io.LimitReader(r, info.Size()-8-offset),
